@@ -106,10 +106,16 @@ def reset_environment(seed: int = 0):
     logging.disable(logging.CRITICAL)
 
 
+class ChunkAbort(BaseException):
+    """Raised by Acc.fail once a chunk has recorded MAX_FAILS violations: a tree that is broken this badly needs no
+    further exploration of the chunk (and broken code is often pathologically slow)."""
+
+
 class Acc:
     """Per-chunk accumulator. All counts are measured here, nothing is a constant."""
 
     MAX_KEEP_PER_SIG = 3
+    MAX_FAILS = 400
 
     def __init__(self, key: str, tier: str, seed: int):
         self.key = key
@@ -152,6 +158,9 @@ class Acc:
             self.violations.append(
                 {"signature": sig, "case": case, "expected": expected, "observed": observed, "note": note}
             )
+        if sum(self.sigcount.values()) >= self.MAX_FAILS:
+            self.capped(f"chunk {self.key} stopped after {self.MAX_FAILS} violations")
+            raise ChunkAbort()
 
     def sample(self, obj):
         if len(self.samples) < 2:
@@ -205,6 +214,8 @@ def _work(item):
     t0 = time.time()
     try:
         mod.run_chunk(chunk, acc)
+    except ChunkAbort:
+        pass
     except Hang as e:  # a hang outside a per-case watchdog is a harness problem
         return idx, {"key": chunk["key"], "harness_error": f"Hang escaped run_chunk: {e}"}
     except BaseException:
@@ -489,7 +500,10 @@ def replay_file(path) -> int:
     if isinstance(case, dict) and case.get("kind") == "__chunk__":
         acc = Acc(case["chunk"]["key"], case["tier"], case["seed"])
         reset_environment(case["seed"])
-        mod.run_chunk(case["chunk"], acc)
+        try:
+            mod.run_chunk(case["chunk"], acc)
+        except ChunkAbort:
+            pass
         hit = [v for v in acc.violations if v["signature"] == body["signature"]]
         print(f"property={body['property']} signature={body['signature']} (chunk replay: {case['chunk']['key']})")
         print("failing case =", json.dumps(case.get("failing_case"), sort_keys=True, default=_json_default)[:3000])
